@@ -181,6 +181,10 @@ class Parser:
             return (name,)
         if name == "char":
             return ("char",)
+        if name == "str":
+            return ("str",)
+        if name == "Vec" and len(args) == 1:
+            return ("slice", args[0])
         consts = [a[1] for a in args if a[0] == "constarg"]
         if consts and name not in ("Result", "Option"):
             return ("named", "%s_%d" % (name, consts[0]))
@@ -562,6 +566,21 @@ class Parser:
                     if len(inner) != 3 or inner[0][0] != "id" or inner[1] != ("op", ",") or inner[2][0] != "str":
                         raise TransError("write! with positional arguments")
                     return ("fmtwrite", ("path", [inner[0][1]]), inner[2][1][1:-1])
+                if name == "vec":
+                    # vec![a, b, …]: the list
+                    pp = Parser(inner + [("eof", "")], self.macros)
+                    es = []
+                    while pp.peek()[0] != "eof":
+                        es.append(pp.expr())
+                        if pp.at(","):
+                            pp.next()
+                        elif pp.peek()[0] != "eof":
+                            raise TransError("vec! with a repeat count")
+                    return ("array", es)
+                if name == "format":
+                    if len(inner) != 1 or inner[0][0] != "str":
+                        raise TransError("format! with positional arguments")
+                    return ("fmtstr", inner[0][1][1:-1])
                 return self.expand_macro(name, inner)
             if self.at("{") and not nostruct and path[-1][0].isupper():
                 self.next()
@@ -644,10 +663,25 @@ class Parser:
         self.expect("{")
         stmts = []
         tail = None
+        drop_from = None
         while not self.at("}"):
+            if drop_from is not None and len(stmts) > drop_from:
+                del stmts[drop_from:]
+                drop_from = None
             if self.at("#") and self.peek(1)[1] == "[" and self.peek(2)[1] in ("cfg", "cfg_attr"):
-                # the meaning of the body would depend on the feature set: not in the subset
-                raise TransError("cfg-gated statement inside a function body")
+                # a statement gated on the *target* (`unix`, as `rustc --print cfg` reports it for this machine) is
+                # kept or dropped; the meaning of anything gated on a feature would depend on the feature set,
+                # which is C19's subject: not in the subset
+                pred = [t[1] for t in self.t[self.i + 3:self.i + 9]]
+                if pred[:3] == ["(", "unix", ")"] and pred[3] == "]":
+                    keep = target_cfg("unix")
+                elif pred[:6] == ["(", "not", "(", "unix", ")", ")"]:
+                    keep = not target_cfg("unix")
+                else:
+                    raise TransError("cfg-gated statement inside a function body")
+                self.skip_attrs()
+                if not keep:
+                    drop_from = len(stmts)
             self.skip_attrs()
             if self.at(";"):
                 self.next()
@@ -714,7 +748,30 @@ class Parser:
                 continue
             raise TransError("expected ; or } after expression, got %r" % (self.peek()[1],))
         self.expect("}")
+        if drop_from is not None:
+            if len(stmts) > drop_from:
+                del stmts[drop_from:]
+            elif tail is not None:
+                tail = None
         return ("block", stmts, tail)
+
+
+_TARGET_CFG = None
+
+
+def target_cfg(name):
+    """is `name` set for the compilation target (rustc --print cfg)?"""
+    global _TARGET_CFG
+    if _TARGET_CFG is None:
+        import subprocess
+        try:
+            out = subprocess.run(["rustc", "--print", "cfg"], capture_output=True, text=True, timeout=60).stdout
+        except Exception as e:
+            raise TransError("rustc --print cfg: %s" % e)
+        _TARGET_CFG = set(out.split())
+        if not _TARGET_CFG:
+            raise TransError("rustc --print cfg printed nothing")
+    return name in _TARGET_CFG
 
 
 def char_value(tok):
@@ -1134,9 +1191,9 @@ def lean_ty(t):
         return "Bool"
     if k == "char":
         return "Char"
-    if k == "byte" or k == "charbyte":
+    if k == "byte" or k == "charbyte" or k == "charcode":
         return "Nat"
-    if k == "str":
+    if k == "str" or k == "chars":
         return "List Nat"
     if k == "bytesN":
         return "List Nat"
@@ -1165,6 +1222,12 @@ def lean_ty(t):
     if k == "named":
         if t[1] == "Ordering":
             return "Ordering"
+        if t[1] == "BoxError":
+            return "Unit"           # Box<dyn Error + …>: nothing in it is looked at
+        if t[1] == "IoLog":
+            return "TzVerif.Src.IoLog"
+        if t[1] == "Error":
+            return "TzVerif.Model.Error"
         if t[1] == "Self":
             raise TransError("unresolved Self")
         if t[1] in NEWTYPES:
@@ -1186,6 +1249,11 @@ def paren(s):
 TYPE_ALIASES = {"Cursor": ("slice", ("u8",)), "TimeData": ("slice", ("u8",)),
                 # struct FoundDateTimeList(Vec<FoundDateTimeKind>): the sequence itself
                 "FoundDateTimeList": ("slice", ("named", "FoundDateTimeKind"))}
+TYPE_ALIASES["ReadFileFn"] = ("fnty", [("str",)], ("result", ("slice", ("u8",)), ("named", "BoxError")))
+STRUCTS["TimeZoneSettings"] = {"directories": ("directories", ("slice", ("str",))), "read_file_fn": ("readFileFn", TYPE_ALIASES["ReadFileFn"])}
+SRC_STRUCTS.add("TimeZoneSettings")
+# function-typed fields whose calls are effects (each call is put on the log threaded through `io` functions)
+IO_FIELDS = {"read_file_fn"}
 STRUCTS["FoundDateTimeListRefMut"] = {"buf": ("buf", ("slice", ("option", ("named", "FoundDateTimeKind")))), "current_index": ("currentIndex", "nat"), "count": ("count", "nat")}
 
 
@@ -1203,10 +1271,34 @@ class Normaliser:
     """AST rewriting before translation: `?` inside larger expressions is hoisted into `let`s, `x.push(v)` on the
     output list becomes an assignment, `expr?;` becomes `let _ = expr?;`, the pair-swap idiom becomes one call."""
 
-    def __init__(self, out_param):
+    def __init__(self, out_param, io_methods=()):
         self.out = out_param
         self.n = 0
         self.vecs = set()
+        self.io_methods = set(io_methods)
+        self.ioclosures = set()
+
+    def is_io_call(self, e):
+        """an expression with an effect on the log: calling an injected function, an `io` method of self, a closure
+        that does, or find_map with such a closure"""
+        if not isinstance(e, tuple) or not e:
+            return False
+        if e[0] == "call" and e[1][0] == "field" and e[1][2] in IO_FIELDS:
+            return True
+        if e[0] == "mcall" and e[1] == ("path", ["self"]) and e[2] in self.io_methods:
+            return True
+        if e[0] == "call" and e[1][0] == "path" and len(e[1][1]) == 1 and e[1][1][0] in self.ioclosures:
+            return True
+        if e[0] == "mcall" and e[2] == "find_map" and e[3] and e[3][0][0] == "closure" and self.contains_io(e[3][0][3]):
+            return True
+        return False
+
+    def contains_io(self, e):
+        if self.is_io_call(e):
+            return True
+        if isinstance(e, (tuple, list)):
+            return any(self.contains_io(x) for x in e)
+        return False
 
     def fresh(self):
         self.n += 1
@@ -1245,8 +1337,10 @@ class Normaliser:
             if st[3][0] == "mcall" and st[3][2] == "next" and not st[3][3] and st[3][1][0] == "path" and len(st[3][1][1]) == 1:
                 # let v = it.next();  on a local iterator: its head, and the iterator advances
                 it = st[3][1]
-                return [("let", st[1], st[2], ("mcall", it, "first", [])), ("assign", it, "=", ("mcall", it, "__tail", []))]
+                return [("let", ("ptuple", [st[1], ("pvar", it[1][0])]), None, ("mcall", it, "__next", []))]
             lets, init = self.hoist(st[3], top=True)
+            if init[0] == "closure" and st[1][0] == "pvar" and self.contains_io(init[3]):
+                self.ioclosures.add(st[1][1])
             return lets + [("let", st[1], st[2], init)]
         if k == "assign" and st[1][0] == "field" and st[1][1][0] == "path" and len(st[1][1][1]) == 1:
             # s.f = v / s.f += v  on a local structure (or `&mut self`): the structure with that field replaced
@@ -1451,7 +1545,16 @@ class Normaliser:
                 out.append(xs)
             else:
                 out.append(x)
-        return lets, tuple(out)
+        node = tuple(out)
+        if not top and self.is_io_call(node):
+            # effects happen in statement order: `let v = <effect>;` before the expression that uses v
+            v = self.fresh()
+            return lets + [("let", ("pvar", v), None, node)], ("path", [v])
+        if not top and node[0] == "mcall" and node[2] == "next" and not node[3] and node[1][0] == "path" and len(node[1][1]) == 1:
+            # it.next() inside an expression, on a local iterator: head and advance, before the expression
+            v = self.fresh()
+            return lets + [("let", ("ptuple", [("pvar", v), ("pvar", node[1][1][0])]), None, ("mcall", node[1], "__next", []))], ("path", [v])
+        return lets, node
 
 
 class Fn:
@@ -1467,7 +1570,9 @@ class Fn:
         self.cfg = cfg
         self.ret = self.resolve(ret)
         self.out = cfg.get("out_param")
-        self.body = Normaliser(self.out).block(body)
+        self.io = bool(cfg.get("io"))
+        self.norm = Normaliser(self.out, tr.io_methods if self.io else ())
+        self.body = self.norm.block(body)
         self.loop_no = 0
         self.post = []
         self.sclosures = {}
@@ -1610,7 +1715,31 @@ class Fn:
         if k == "unreachable":
             return ("default", None)
         if k == "charlit":
+            if want == ("charcode",):
+                return (str(char_value(e[1])), ("charcode",))      # a char compared with a decoded scalar value
             return (e[1], ("char",))
+        if k == "strlit":
+            body = e[1][1:-1]
+            if "\\" in body or not all(32 <= ord(c) < 127 for c in body):
+                raise TransError("string literal %s" % e[1])
+            return ("[" + ", ".join(str(ord(c)) for c in body) + "]", ("str",))
+        if k == "fmtstr":
+            # format!("{a}/{b}") over string variables: the concatenation of the UTF-8 bytes
+            pieces = []
+            for m in re.finditer(r"\{([a-z_][a-z_0-9]*)\}|([^{}]+)", e[1]):
+                if m.group(2) is not None:
+                    if not all(32 <= ord(c) < 127 and c != "\\" for c in m.group(2)):
+                        raise TransError("format string %r" % e[1])
+                    pieces.append("[" + ", ".join(str(ord(c)) for c in m.group(2)) + "]")
+                else:
+                    v = m.group(1)
+                    vt = strip_ref(env.get(v)) if env.get(v) else None
+                    if not vt or vt[0] != "str":
+                        raise TransError("format argument %s that is not a string" % v)
+                    pieces.append(vname(v))
+            if "".join(m.group(0) for m in re.finditer(r"\{([a-z_][a-z_0-9]*)\}|([^{}]+)", e[1])) != e[1]:
+                raise TransError("format string %r" % e[1])
+            return ("(" + " ++ ".join(pieces) + ")", ("str",))
         if k == "fmtappend":
             l, t = self.ex(e[1], env)
             pieces = []
@@ -1756,6 +1885,9 @@ class Fn:
         head, last = path[-2], path[-1]
         if head == "Self":
             head = self.owner
+        if path[-2:] == ["Error", "Io"]:
+            # the constructor as a function (map_err): the boxed payload is not modelled
+            return ("(fun _ => TzVerif.Model.Error.io)", ("fnty", [("named", "BoxError")], ("named", "Error")))
         if "%s.%s" % (head, last) in EXTERN_FNS:
             lean, pts, rt = EXTERN_FNS["%s.%s" % (head, last)]
             return (lean, ("fnty", pts, rt))
@@ -1854,6 +1986,8 @@ class Fn:
                 return ("%s.isEmpty" % s, ("bool",))
             if name == "as_bytes":
                 return (s, ("slice", ("u8",)))
+            if name == "chars":
+                return (s, ("chars",))
             raise TransError("str method %s" % name)
         if t and t[0] == "charbyte" and name == "is_ascii_whitespace":
             return ("(TzVerif.Src.char_is_ascii_whitespace %s)" % s, ("bool",))
@@ -1893,8 +2027,22 @@ class Fn:
             return (text, self.tr.sigs[impls[0][1]][1] if impls[0][1] in self.tr.sigs else None)
         if name == "flatten" and t and t[0] == "slice" and t[1] and strip_ref(t[1])[0] == "option":
             return ("(Src.flatten %s)" % s, ("slice", strip_ref(t[1])[1]))
-        if name == "__tail":
-            return ("(List.tail %s)" % s, t)
+        if name == "__next" and t and t[0] == "slice":
+            return ("(List.head? %s, List.tail %s)" % (s, s), ("tuple", [("option", t[1]), t]))
+        if name == "__next" and t and t[0] == "chars":
+            return ("(TzVerif.Src.str_chars_next %s)" % s, ("tuple", [("option", ("charcode",)), t]))
+        if name == "chars" and t and t[0] == "str":
+            return (s, ("chars",))
+        if name == "as_str" and t and t[0] == "chars":
+            return (s, ("str",))
+        if name == "ok" and t and t[0] == "result" and not args:
+            return ("(Src.res_ok %s)" % s, ("option", t[1]))
+        if name == "map_err" and t and t[0] == "result" and len(args) == 1:
+            f, ft = self.err_fn(args[0], env)
+            return ("(Src.res_map_err %s %s)" % (f, s), ("result", t[1], ft))
+        if name == "ok_or_else" and t and t[0] == "option" and len(args) == 1 and args[0][0] == "closure" and not args[0][1]:
+            ev, et = self.ex(args[0][3], env)
+            return ("(Src.ok_or_else %s %s)" % (s, ev), ("result", t[1], et))
         if name in ("first", "next") and t and t[0] == "slice":
             # (`next` on an iterator expression that is not kept: its first element)
             return ("(List.head? %s)" % s, ("option", t[1] if (t and t[0] == "slice") else None))
@@ -1996,9 +2144,19 @@ class Fn:
             return ("(%s %s)" % (PARSE_INT[t], self.ex(args[0], env)[0]), ("result", (t,), ("named", "TzStringError")))
         if len(path) == 1 and name in env and env[name] and env[name][0] == "closure":
             return ("(%s %s)" % (vname(name), " ".join(self.ex(x, env)[0] for x in args)), env[name][1])
+        if name == "Err" and len(path) == 1 and want and want[0] == "result" and want[2] is not None:
+            s, t = self.ex(args[0], env)
+            if t is not None and strip_ref(t) != strip_ref(want[2]) and strip_ref(t)[0] == "named" and strip_ref(want[2])[0] == "named":
+                s = self.conv_err(s, t, want[2])      # `.into()` / From
+            return ("(Except.error %s)" % s, None)
+        if name == "Some" and len(path) == 1 and want and want[0] == "option" and want[1] == ("charcode",):
+            s, t = self.ex(args[0], env, want=want[1])
+            return ("(some %s)" % s, ("option", t))
         if name in ("Ok", "Err", "Some") and len(path) == 1:
             s, t = self.ex(args[0], env)
             return ("(%s %s)" % ({"Ok": "Except.ok", "Err": "Except.error", "Some": "some"}[name], s), ("option", t) if name == "Some" else None)
+        if path[-2:] == ["Error", "Io"]:
+            return ("TzVerif.Model.Error.io", ("named", "Error"))     # the boxed payload is not modelled
         if len(path) >= 2 and path[-2] in ERROR_ENUMS:
             s, _ = self.ex(args[0], env)
             return ("(TzVerif.Model.%s.%s %s)" % (path[-2], lower_first(name), s), ("named", path[-2]))
@@ -2036,6 +2194,29 @@ class Fn:
         if targs and ret:
             ret = self.annotate_const(ret, a[0])
         return ("(Src.%s %s)" % (self.tr.lean_name(q), " ".join(a)) if a else "Src.%s" % self.tr.lean_name(q), ret)
+
+    def err_fn(self, f, env):
+        """an error-mapping function value: -> (lean text, resulting error type)"""
+        if f[0] == "path" and f[1][-2:] == ["Error", "Io"]:
+            return ("(fun _ => TzVerif.Model.Error.io)", ("named", "Error"))
+        raise TransError("map_err argument")
+
+    @staticmethod
+    def conv_err(text, et, rt):
+        """`From` conversion of an error value (used by `?` and `.into()`): -> lean text"""
+        et, rt = strip_ref(et), strip_ref(rt)
+        if et == rt:
+            return text
+        if rt == ("named", "TzError") and et[0] == "named" and et[1] in FROM_TZERROR:
+            return "(TzVerif.Model.TzError.%s %s)" % (FROM_TZERROR[et[1]], text)
+        if et[0] == "named" and rt[0] == "named" and (et[1], rt[1]) in FROM_CONV:
+            return "(%s %s)" % (FROM_CONV[(et[1], rt[1])], text)
+        if rt == ("named", "Error") and et == ("named", "TzError"):
+            return "(TzVerif.Model.Error.tz %s)" % text
+        if rt == ("named", "Error") and et[0] == "named" and et[1] in FROM_TZERROR:
+            # From<X> for Error goes through TzError
+            return "(TzVerif.Model.Error.tz (TzVerif.Model.TzError.%s %s))" % (FROM_TZERROR[et[1]], text)
+        raise TransError("? converts %r into %r" % (et, rt))
 
     def annotate_const(self, t, ctext):
         """DataBlocks<TIME_SIZE> returned by f::<4>(…): remember the const argument for later method calls"""
@@ -2132,7 +2313,82 @@ class Fn:
         return self.stmts(list(stmts), tail, env, k, ctx or {"ret": self.ret_plain, "value_only": value_only, "fn_tail": not value_only})
 
     def ret_plain(self, text):
+        if self.io:
+            return "(%s, __io)" % text      # every exit hands back the log as it is at that point
         return text
+
+    # ---- effects on the log (`io` functions)
+    def io_init(self, init):
+        """initialiser that is an effect (after normalisation effects only occur as whole initialisers)"""
+        if not self.io:
+            return None
+        if init[0] == "try" and self.norm.is_io_call(init[1]):
+            return (init[1], True)
+        if self.norm.is_io_call(init):
+            return (init, False)
+        return None
+
+    def no_return(self, text):
+        raise TransError("return / ? inside a closure with effects")
+
+    def io_body(self, body, env1):
+        """body of a closure with effects: fun … __io => (value, __io); -> (text, value type)"""
+        self.last_tail_type = None
+        text = self.block(self.as_block(body), env1, lambda v, e2: "(%s, __io)" % v,
+                          ctx={"ret": self.no_return, "value_only": True, "fn_tail": False})
+        return text, self.last_tail_type
+
+    def io_call(self, node, env):
+        """-> (lean text of type R × IoLog, R)"""
+        if node[0] == "call" and node[1][0] == "field":
+            s, st = self.ex(node[1][1], env)
+            ftext, ft = self.field(s, strip_ref(st), node[1][2])
+            if not ft or ft[0] != "fnty" or len(node[2]) != len(ft[1]):
+                raise TransError("call of field %s" % node[1][2])
+            args = " ".join(self.ex(a, env, want=pt)[0] for a, pt in zip(node[2], ft[1]))
+            return ("(TzVerif.Src.call_io %s %s __io)" % (ftext, args), ft[2])
+        if node[0] == "mcall" and node[2] == "find_map":
+            s, t = self.ex(node[1], env)
+            t = strip_ref(t) if t else None
+            cl = node[3][0]
+            if len(cl[1]) != 1 or cl[1][0][0][0] != "pvar":
+                raise TransError("find_map closure parameters")
+            env1 = dict(env)
+            env1[cl[1][0][0][1]] = elem_type(t)
+            body, bt = self.io_body(cl[3], env1)
+            if not bt or bt[0] != "option":
+                raise TransError("find_map closure result type")
+            return ("(TzVerif.Src.find_map_io (fun %s __io =>\n%s) %s __io)" % (vname(cl[1][0][0][1]), indent(body, 4), s), bt)
+        if node[0] == "mcall":
+            q = "%s.%s" % (self.owner, node[2])
+            if q not in self.tr.sigs:
+                raise TransError("call of untranslated method %s" % q)
+            params, ret = self.tr.sigs[q]
+            args = [self.ex(a, env, want=pt)[0] for a, (pn, pt) in zip(node[3], params[1:])]
+            return ("(Src.%s %s __io)" % (self.tr.lean_name(q), " ".join(["self"] + args)), ret)
+        if node[0] == "call":
+            c = node[1][1][0]
+            ct = env.get(c)
+            if not ct or ct[0] != "ioclosure":
+                raise TransError("call of %s" % c)
+            args = " ".join(self.ex(a, env, want=pt)[0] for a, pt in zip(node[2], ct[2]))
+            return ("(%s %s __io)" % (vname(c), args), ct[1])
+        raise TransError("effect %s" % node[0])
+
+    def io_closure_def(self, name, cl, env, cont):
+        env1 = dict(env)
+        ps, pts = [], []
+        for pp, pt in cl[1]:
+            if pp[0] != "pvar" or pt is None:
+                raise TransError("closure parameter without a type")
+            ty = strip_ref(self.resolve(pt))
+            env1[pp[1]] = ty
+            pts.append(ty)
+            ps.append("(%s : %s)" % (vname(pp[1]), lean_ty(ty)))
+        body, bt = self.io_body(cl[3], env1)
+        env2 = dict(env)
+        env2[name] = ("ioclosure", bt, pts)
+        return "let %s := fun %s (__io : TzVerif.Src.IoLog) =>\n%s\n%s" % (vname(name), " ".join(ps), indent(body), cont(env2))
 
     def diverges(self, e):
         """does evaluating e always leave by return / break?"""
@@ -2222,6 +2478,17 @@ class Fn:
             oc = self.out_call(init)
             if oc is not None:
                 return self.out_call_stmt(p, oc, env, cont, ctx)
+            io = self.io_init(init)
+            if io is not None:
+                text, rt = self.io_call(io[0], env)
+                self.io_no = getattr(self, "io_no", 0) + 1
+                v = "__r%d" % self.io_no
+                env2 = dict(env)
+                env2[v] = rt
+                init2 = ("try", ("path", [v])) if io[1] else ("path", [v])
+                return "let (%s, __io) := %s\n%s" % (v, text, self.bind(p, t, init2, env2, cont, ctx))
+            if self.io and init[0] == "closure" and p[0] == "pvar" and p[1] in self.norm.ioclosures:
+                return self.io_closure_def(p[1], init, env, cont)
             if init[0] == "closure" and p[0] == "pvar":
                 captured = []
                 for n in self.assigned(init[3], []):
@@ -2423,6 +2690,7 @@ class Fn:
         if ctx.get("fn_tail") and (self.out or self.inout):
             return k(self.ret_value(e, env), env)
         s, t = self.ex(e, env, want=self.ret if not ctx.get("value_only") else None)
+        self.last_tail_type = t
         return k(s, env)
 
     def with_carried(self, e, carried):
@@ -2520,15 +2788,8 @@ class Fn:
             if self.post:
                 raise TransError("payload pattern after ?")
             conv = "e"
-            if ti and ti[0] == "result" and self.ret and self.ret[0] == "result":
-                et, rt = strip_ref(ti[2]), strip_ref(self.ret[2])
-                if et != rt:
-                    if rt == ("named", "TzError") and et[0] == "named" and et[1] in FROM_TZERROR:
-                        conv = "(TzVerif.Model.TzError.%s e)" % FROM_TZERROR[et[1]]
-                    elif et[0] == "named" and rt[0] == "named" and (et[1], rt[1]) in FROM_CONV:
-                        conv = "(%s e)" % FROM_CONV[(et[1], rt[1])]
-                    else:
-                        raise TransError("? converts %r into %r" % (et, rt))
+            if ti and ti[0] == "result" and self.ret and self.ret[0] == "result" and ti[2] is not None:
+                conv = self.conv_err("e", ti[2], self.ret[2])
             return "match %s with\n| .ok %s =>\n%s\n| .error e => %s" % (s, paren(okp), indent(cont(env2)), ctx["ret"]("(Except.error %s)" % conv))
         if init[0] in ("match", "if", "iflet", "block"):
             carried = []
@@ -2939,6 +3200,8 @@ class Translator:
         self.consts = {}
         self.order = []
         self.inout = {}
+        # methods that call an injected function (directly or not): the log of those calls is threaded through them
+        self.io_methods = {q.split(".")[-1] for rel, names in config["groups"] for q, c in names.items() if c.get("io")}
         self.failed = {}
 
     def lean_name(self, q):
@@ -3012,8 +3275,13 @@ class Translator:
                 for n, t in self.sigs[q][0]:
                     env[n] = strip_ref(t)
                     binders.append("(%s : %s)" % (vname(n), lean_ty(strip_ref(t))))
-                text = f.block(f.body, env, lambda v, env2: v)
-                rty = lean_ty(f.ret)
+                if f.io:
+                    binders.append("(__io : TzVerif.Src.IoLog)")
+                    text = f.block(f.body, env, lambda v, env2: "(%s, __io)" % v)
+                    rty = "%s × TzVerif.Src.IoLog" % paren(lean_ty(f.ret))
+                else:
+                    text = f.block(f.body, env, lambda v, env2: v)
+                    rty = lean_ty(f.ret)
             except Exception as e:
                 # fail closed per function: it is not emitted, nor is anything that calls it
                 self.failed[q] = "%s: %s: %s" % (rel, q, e)
@@ -3101,6 +3369,11 @@ CONFIG = {
             "parse_header": {}, "parse_footer": {}, "read_data_blocks": {}, "DataBlocks_4.parse_time": {}, "DataBlocks_8.parse_time": {},
             "DataBlocks.parse": {}, "parse_tz_file": {},
         }),
+        ("src/timezone/mod.rs", {
+            # TZ value resolution; `io`: the calls of the injected file-reading function are logged, in order
+            "TimeZoneSettings.new": {}, "TimeZoneSettings.read_tz_file": {"io": True},
+            "TimeZoneSettings.parse_posix_tz": {"io": True}, "TimeZoneSettings.parse_local": {"io": True},
+        }),
     ]
 }
 
@@ -3117,7 +3390,7 @@ def main():
     fails = "".join("-- NOT TRANSLATED %s\n" % str(v).replace("\n", " ") for v in tr.failed.values())
     text = ("-- GENERATED by tools/rs2lean.py from /repo/src on every run. Do not edit.\n"
             "-- One Lean definition per listed Rust function, translated statement by statement.\n" + fails +
-            "import TzVerif.SrcPrelude\nimport TzVerif.SrcPreludeStr\nimport TzVerif.Model.TzFile\nimport TzVerif.Model.Find\n\nset_option linter.unusedVariables false\n\nnamespace TzVerif.Src\nopen TzVerif\n\n" + "\n".join(defs) + "\nend TzVerif.Src\n")
+            "import TzVerif.SrcPrelude\nimport TzVerif.SrcPreludeStr\nimport TzVerif.SrcPreludeIo\nimport TzVerif.Model.TzFile\nimport TzVerif.Model.Find\n\nset_option linter.unusedVariables false\n\nnamespace TzVerif.Src\nopen TzVerif\n\n" + "\n".join(defs) + "\nend TzVerif.Src\n")
     path = os.path.join(OUT, "Src.lean")
     old = open(path).read() if os.path.exists(path) else None
     if old != text:
